@@ -294,7 +294,7 @@ def shrink_tokens(sc):
         if c["rng"]["tokens"] != toks:
             out.append(c)
         c = _c(sc)
-        c["rng"]["tokens"] = [t if isinstance(t, str) else round(t, 2) for t in toks]
+        c["rng"]["tokens"] = [t if isinstance(t, str) else min(round(t, 2), 0.99) for t in toks]
         if c["rng"]["tokens"] != toks:
             out.append(c)
     return out
@@ -360,6 +360,8 @@ class CheckC01(Check):
                 if algo == "StoSOO":
                     sc["params"]["h_max"] = max(sc["params"].get("h_max", 100), 100)
             sc["rounds"] = r.choice([200, 400, 600])
+        if algo == "Zooming" and r.random() < 0.15:
+            gen.zooming_deep(r, sc, seed)
         if algo != "VROOM" and sc["meta"].get("known") is None and r.random() < 0.3:
             # get_last_point after every round: on the current tree every recommendation call except VROOM's is a read
             # (or recomputes the same path), so one run of T rounds stands for the runs of every length 1..T
@@ -380,8 +382,8 @@ class CheckC02(Check):
     rule = ("(a) raw partitions driven by seeded schedules of deepen()/make_children(leaf) and (b) every expansion of algorithm "
             "runs; non-trivial = >= 3 expansions; distinct = (driver, partition class, K, d, RNG policy, final leaf-set hash)")
     assumptions = ["floats only: the 'arbitrary real bounds, symbolically' half of the statement is not decided here",
-                   "|coordinate| <= ~1e6, width >= 5e-4 at the root; K <= 8, d <= 4"]
-    fault_kinds = CheckC01.fault_kinds
+                   "|coordinate| <= ~1e6, width >= 5e-4 at the root; raw partitions K <= 64, d <= 6 (DimensionBinary d <= 5); algorithm runs K <= 8, d <= 5"]
+    fault_kinds = CheckC01.fault_kinds + ["neighbour-partition"]
     probe_names = ["zero-width-cell-created"]
 
     def generate(self, r, seed, tier):
@@ -420,6 +422,7 @@ class CheckC03(CheckC02):
             "distinct = (driver, partition class, K, d, RNG policy, final leaf-set hash)")
     assumptions = ["make_children is only called with the newlayer value the documented callers compute (parent.depth >= partition depth)"]
     probe_names = ["raw:expand-non-deepest-leaf", "raw:deepen-after-partial-layer"]
+    fault_kinds = CheckC01.fault_kinds + ["neighbour-partition"]
 
     def generate(self, r, seed, tier):
         if r.random() < 0.55:
@@ -433,14 +436,34 @@ class CheckC03(CheckC02):
             if r.random() < 0.5 and len(sc["domain"]) > 1:
                 sc["partition"] = {"cls": "DimensionBinaryPartition"}
             sc["rounds"] = r.choice([200, 400, 800])
+        elif algo == "Zooming" and r.random() < 0.4:
+            gen.zooming_deep(r, sc, seed)
         return sc
+
+
+def big_int_rewards(r, sc):
+    """Rewards as exact Python integers around +-2^60 (only for the algorithms that merely compare rewards)."""
+    rw = sc["rewards"]
+    if rw.get("kind") in ("bernoulli", "score", "ramp", "decay"):
+        rw["kind"] = "gauss"
+    rw["types"] = "L"
+    rw["bigsign"] = r.choice([1, 1, -1])
+    rw.pop("scale", None)
+    rw.pop("offset", None)
+    for nb in sc.get("neighbours") or []:
+        pass
+    return sc
 
 
 def gen_raw(r, seed):
     part = gen.gen_partition(r, gen.PARTS_ALL + [{"cls": "KaryPartition", "K": k} for k in (6, 7, 8)]
                              + [{"cls": "RandomKaryPartition", "K": k} for k in (6, 8)])
+    if "K" in part and r.random() < 0.08:
+        part["K"] = r.choice([10, 12, 16, 24, 32, 48, 64])     # very large arities (chained / vectorised boundary arithmetic)
     dmax = 4 if part["cls"] != "DimensionBinaryPartition" else 3
     d = r.randint(1, dmax)
+    if r.random() < 0.05:
+        d = r.choice([5, 6]) if part["cls"] != "DimensionBinaryPartition" else r.choice([4, 5])
     dom = [gen.gen_side(r) for _ in range(d)] if r.random() > 0.3 else [gen.gen_side(r)] * d
     dom = [list(x) for x in dom]
     nops = r.choice([3, 6, 12, 25, 60])
@@ -450,8 +473,14 @@ def gen_raw(r, seed):
         side = r.choice([0.0, 1.0, 1.0])
         ops = [["chain", side] for _ in range(r.choice([30, 50, 80]))]
         nops = 0
+    nb = r.random() < 0.25
+    nb_dims = [r.randint(1, 4) for _ in range(2)]
+    if nb and nops:
+        ops.append(["other", nb_dims[0], r.random()])
     for _ in range(nops):
         k = r.random()
+        if nb and r.random() < 0.3:
+            ops.append(["other", r.choice(nb_dims), r.random()])
         if k < 0.15:
             ops.append(["deepen"])
         elif k < 0.6:
@@ -498,6 +527,8 @@ class CheckC04(Check):
             d = derived(sc)
             if d.get("gpo_L_zero"):
                 sc["params"]["rhomax"] = 0.9
+        if algo == "Zooming" and r.random() < 0.25:
+            gen.zooming_deep(r, sc, seed)
         return sc
 
 
@@ -573,7 +604,10 @@ class CheckC08(Check):
         algo = r.choice(["SOO", "StoSOO", "DOO"])
         n = gen.gen_budget(r, 100, 400 if tier == "quick" else 1000)
         kinds = ["const", "int", "fewlevels", "gauss", "obj", "neg", "unit", "zero", "late", "altsign", "objneg", "edge"]
-        return gen.base_scenario(r, seed, algo, n=n, reward_kinds=kinds, sched_prob=0.2, mid_prob=0.5, neighbour_prob=0.25)
+        sc = gen.base_scenario(r, seed, algo, n=n, reward_kinds=kinds, sched_prob=0.2, mid_prob=0.5, neighbour_prob=0.25)
+        if algo in ("SOO", "DOO") and r.random() < 0.05:
+            big_int_rewards(r, sc)
+        return sc
 
 
 class CheckC12(Check):
@@ -600,6 +634,8 @@ class CheckC12(Check):
                                reward_kinds=["const", "int", "fewlevels", "gauss", "obj", "neg", "unit", "zero", "late", "altsign", "edge"])
         if r.random() < 0.3:
             sc["schedule"] = [{"after": r.randint(max(1, sc["rounds"] - 20), sc["rounds"]), "times": 1} for _ in range(3)]
+        if r.random() < 0.06:
+            big_int_rewards(r, sc)
         return sc
 
 
@@ -635,6 +671,8 @@ class CheckC07(Check):
             sc["rounds"] = n if r.random() < 0.7 else sc["rounds"]
         if algo == "StroquOOL" and r.random() < 0.7:
             sc["rounds"] = r.randint(max(1, n // 25), max(2, n // 5))
+        if algo in ("DOO", "SOO", "SequOOL") and r.random() < 0.07:
+            big_int_rewards(r, sc)
         if algo in ("DOO", "SOO", "SequOOL", "POO", "GPO", "PCT", "VPCT") and r.random() < 0.4:
             # these ignore the time argument (C15), so any increasing labels are a legal way to drive them
             sc["labels"] = r.choice([{"scheme": "zero"}, {"scheme": "offset", "offset": r.choice([17, 18, 4, 101])},
@@ -782,6 +820,14 @@ class CheckC11(Check):
         elif k < 0.65:
             # dyadic parameters: the confidence radius meets nu*rho^depth exactly, not just approximately
             sc["params"] = {"nu": r.choice([0.5, 1.0, 1.0, 2.0, 4.0]), "rho": r.choice([0.5, 0.5, 0.25, 0.75])}
+        elif k < 0.72:
+            gen.zooming_deep(r, sc, seed)
+        elif k < 0.80:
+            # cells refined after a few pulls for hundreds of rounds: arms get refined a second and third time, end up on the
+            # outer faces of their cells and on cuts that are not dyadic
+            sc["params"] = {"nu": gen.loguniform(r, 2, 30), "rho": r.uniform(0.7, 0.97)}
+            sc["rounds"] = r.choice([400, 600, 800]) if tier == "quick" else r.choice([600, 1200, 2000])
+            sc["budget"] = max(sc["budget"], sc["rounds"])
         return sc
 
     def nontrivial(self, sc, res):
@@ -929,7 +975,8 @@ class CheckC14(TwinCheck):
             "when A is RNG-free too; non-trivial = >= 10 rounds; distinct = (algorithm, partition, K, d, reward kind, RNG mode, log digest)")
     assumptions = ["interleaving part only on RNG-outcome-free partitions (DimensionBinary; Binary/K-ary in 1-D) and not VROOM, as the statement says",
                    "tripwires cover random.*, time.*, os.urandom, uuid, numpy.random.{default_rng,RandomState,rand,randn,random,normal,...}"]
-    fault_kinds = ["alloc-noise", "clock-jump", "hashseed", "interleaving", "shared-domain-object", "third-party-instance"]
+    fault_kinds = ["alloc-noise", "clock-jump", "hashseed", "interleaving", "shared-domain-object", "third-party-instance",
+                   "generator-context-switch"]
     probe_names = ["c14-shared-domain-object"]
 
     def generate(self, r, seed, tier):
@@ -957,6 +1004,19 @@ class CheckC14(TwinCheck):
             B["rounds"] = min(B["rounds"], 150)
             sc["B"] = B
             sc["share_domain"] = r.random() < 0.5
+            sc["third_party"] = r.choice([0, 0, 1])
+        elif r.random() < 0.7:
+            # random partitions and VROOM: each instance gets its own (virtual) generator, see twins.run_c14
+            balgo = algo if r.random() < 0.5 else r.choice(gen.ALGOS_ALL)
+            B = _twin_base(r, seed + 1, balgo, n=r.choice([100, 128]), real_prob=0.7, dmax=d)
+            if len(B["domain"]) == d and r.random() < 0.6:
+                B["domain"] = copy.deepcopy(A["domain"])
+            if r.random() < 0.5 and balgo != "VROOM" and algo != "VROOM":
+                B["partition"] = dict(A["partition"])
+            B["rounds"] = min(B["rounds"], 150)
+            sc["B"] = B
+            sc["virtual_rng"] = True
+            sc["share_domain"] = B["domain"] == A["domain"] and r.random() < 0.5
             sc["third_party"] = r.choice([0, 0, 1])
         return sc
 
